@@ -37,7 +37,7 @@ reg("C19",
     level_text="Random operation histories (add in 5 types, del, lookup, clone, add_all, equal, size, foreach, aliasing adds) over pools of maps are compared after every step with an executable finite-map model; generated attribute paths are round-tripped and a must-reject set is enforced, all under ASan+UBSan with caller buffers scribbled and freed after each call.",
     level_note="Sampled histories, not all; internal attr_path_* entry points are called directly because the library is built without its version script.",
     harness=COMMON + ["c19.c"],
-    stages=[dict(variant="asan", cases={"quick": 64, "thorough": 1600},
+    stages=[dict(variant="asan", cases={"quick": 64, "thorough": 12800},
                  timeout={"quick": 600, "thorough": 3000})],
     floors={"quick": {"map_ops": 50000, "paths_valid": 20000, "alias_same_name": 50, "clone_survives_destroy": 50,
                       "zero_length_bin": 100, "large_bin": 20, "paths_over_64_comps": 100, "distinct_nontrivial": 10},
@@ -55,7 +55,7 @@ reg("C01",
     level_text="Real connections on ux, uxf, tcp, tls and utls (UX leg, TLS leg, fallback) in non-blocking, blocking and mixed mode are driven with random interleavings of send/receive/finish/await while a link-time shim below XCM and below OpenSSL fragments and refuses reads and writes; every message has unique content and an offline oracle compares the receiver's history with the sender's ledger of accepted sends (prefix always, equality after a graceful or quiescent end).",
     level_note="Held on the executions produced; kernel scheduling is not controlled. Floors require header splits, frame splits and mid-frame refusals to have been observed.",
     harness=ENGINE + ["traffic.c"], exe="h_traffic",
-    stages=[dict(variant="asan", cases={"quick": 720, "thorough": 14400}, timeout={"quick": 900, "thorough": 3400})],
+    stages=[dict(variant="asan", cases={"quick": 720, "thorough": 115200}, timeout={"quick": 900, "thorough": 3400})],
     floors={"quick": {"header_splits": 200, "frame_splits": 500, "refused_mid_frame": 100, "complete_directions": 300,
                       "cases_with_truncating_receive": 50, "distinct_nontrivial": 60},
             "thorough": {"header_splits": 4000, "frame_splits": 10000, "refused_mid_frame": 2000, "complete_directions": 6000, "distinct_nontrivial": 200}},
@@ -71,7 +71,7 @@ reg("C02",
     level_text="btcp and btls connections in non-blocking, blocking and mixed mode; every xcm_send call carries bytes generated from its own call number, so bytes of a refused call are distinguishable from whatever is offered next (same, longer, shorter or different data); the receiver's concatenated stream is compared with the concatenation of the accepted prefixes (prefix at all times, equality after flush+graceful close or quiescence); return-value contract and capacity bound checked on exact-size heap buffers.",
     level_note="Held on the executions produced. Refusals below OpenSSL after a record was sealed are produced by the shim, not by a real full socket buffer.",
     harness=ENGINE + ["traffic.c"], exe="h_traffic",
-    stages=[dict(variant="asan", cases={"quick": 480, "thorough": 9600}, timeout={"quick": 900, "thorough": 3400})],
+    stages=[dict(variant="asan", cases={"quick": 480, "thorough": 96000}, timeout={"quick": 900, "thorough": 3400})],
     floors={"quick": {"injected_eagain": 2000, "partial_acceptance": 200, "retries_with_different_data": 300, "retries_with_same_data": 100,
                       "complete_directions": 200, "distinct_nontrivial": 40},
             "thorough": {"injected_eagain": 40000, "partial_acceptance": 4000, "retries_with_different_data": 6000, "complete_directions": 4000, "distinct_nontrivial": 100}},
@@ -85,7 +85,7 @@ reg("C03",
     level_text="Every xcm_send outcome on every transport and mode is recorded; sends that fail with EAGAIN/EMSGSIZE/EINVAL/EINTR must leave all counters except to_lower unchanged, must never be delivered, and the application model re-sends them (same or different data) so that a hidden acceptance shows up as a duplicate. Sizes 0, max+1, 1 MiB and 2^31+5 are mixed in. EINTR is injected at the n-th blocking poll of a back-pressured blocking sender (n swept over cases) and by real SIGUSR1.",
     level_note="Held on the executions produced; fault_enumeration over the index of the interrupted wait is sampled per case, not exhaustive.",
     harness=ENGINE + ["traffic.c"], exe="h_traffic",
-    stages=[dict(variant="asan", cases={"quick": 660, "thorough": 13200}, timeout={"quick": 900, "thorough": 3400})],
+    stages=[dict(variant="asan", cases={"quick": 660, "thorough": 39600}, timeout={"quick": 900, "thorough": 3400})],
     floors={"quick": {"refusal_counter_snapshots": 3000, "send_oversized": 500, "send_zero_len": 200, "eintr_injected": 30,
                       "send_refused_eagain": 3000, "complete_directions": 250, "distinct_nontrivial": 60},
             "thorough": {"refusal_counter_snapshots": 60000, "eintr_injected": 600, "complete_directions": 5000, "distinct_nontrivial": 150}},
@@ -114,7 +114,7 @@ reg("C04",
     level_text="Agents act only when poll() reports their xcm fd readable (plus the one speculative attempt the documentation allows). Whenever nothing is readable the monitor evaluates the goals from ground truth (ledgers of accepted sends, counters from_app/to_lower, peer closes): if goals are open while no XCM timerfd is armed and the stub resolver has nothing scheduled for 500 ms, nothing can wake the system again and a lost wake-up is reported with per-endpoint kernel queue state. Unbounded eventuality is not decided; this is the bounded restatement of DESIGN.md section 3/C04. Blocking connect/accept/send/receive/close run in threads with a 40 s watchdog.",
     level_note="Held on the executions produced. Phases covered: resolving (stub: synchronous, after n process calls, after t ms), TCP connecting (accepting, first candidate refusing or not answering with tcp.connect_timeout, happy eyeballs), TLS handshake under injected refusals, ready, peer close.",
     harness=EVLOOP, exe="h_evloop",
-    stages=[dict(variant="asan", cases={"quick": 550, "thorough": 11000}, timeout={"quick": 900, "thorough": 3400})],
+    stages=[dict(variant="asan", cases={"quick": 550, "thorough": 33000}, timeout={"quick": 900, "thorough": 3400})],
     floors={"quick": {"reactor_completed": 300, "close_phase_completed": 250, "wakeups": 20000, "waits_for_xcm_timer_or_resolver": 500,
                       "blocking_scenarios_completed": 30, "injected_faults_below": 5000, "distinct_nontrivial": 80},
             "thorough": {"reactor_completed": 6000, "close_phase_completed": 5000, "blocking_scenarios_completed": 600, "distinct_nontrivial": 200}},
@@ -129,7 +129,7 @@ reg("C16",
     level_text="After a reactor-driven history (all transports, partial I/O plans) has delivered everything and xcm_finish succeeded on both ends, each endpoint is probed: condition 0 and RECEIVABLE-after-EAGAIN must stay unreadable over several samples, SENDABLE and R|S must be readable on the immediately following poll, data waiting in the kernel buffer or already decrypted inside the TLS layer must make RECEIVABLE readable at once, the server socket must be quiet with an empty queue; every poll must report nothing but POLLIN; xcm_fd must return the creation-time number and the shim must still show it as the epoll instance XCM created.",
     level_note="One spurious wake-up that a following EAGAIN receive silences is tolerated (TLS: ssl_condition==0 after a write, TLS 1.3 tickets), persistence is flagged.",
     harness=EVLOOP, exe="h_evloop",
-    stages=[dict(variant="asan", cases={"quick": 550, "thorough": 11000}, timeout={"quick": 900, "thorough": 3400})],
+    stages=[dict(variant="asan", cases={"quick": 550, "thorough": 44000}, timeout={"quick": 900, "thorough": 3400})],
     floors={"quick": {"quiescent_pairs_probed": 250, "probe_cond0": 500, "probe_receivable_idle": 500, "probe_sendable_met": 900,
                       "probe_receivable_met_kernel": 500, "probe_receivable_met_inside_tls": 100, "probe_server_idle": 250, "fd_identity_checks": 1000, "distinct_nontrivial": 80},
             "thorough": {"quiescent_pairs_probed": 5000, "probe_receivable_met_inside_tls": 2000, "distinct_nontrivial": 200}},
@@ -145,7 +145,7 @@ reg("C10",
     level_text="For every transport and every phase a socket can be held in (fresh server, established, peer closed seen/unseen, failed, back-pressured, TCP connecting to a no-answer address, resolving with a silent stub resolver, TLS handshaking with a silent raw peer) every attribute that xcm_attr_get_all enumerates is read through xcm_attr_get/getf and all typed getters with destination buffers that are heap blocks of exactly `capacity` bytes for every capacity 0..len+2 (ASan red zone at the first byte beyond), and written through xcm_attr_set with every wrong type, wrong lengths and a table of admissible and inadmissible values; rejected sets must leave the full attribute snapshot unchanged, accepted ones must read back. Generated hostile names (10 kB, >64 components, unbalanced brackets, huge indices, non-ASCII) go through get, set and list_len. A third of the cases run with the console log enabled so the value-formatting code runs on the same buffers.",
     level_note="ASan red zones detect writes beyond capacity only up to the red-zone size; intra-capacity garbage is not policed. Out-of-enum type values are not passed (API precondition).",
     harness=STATES + ["c10.c"],
-    stages=[dict(variant="asan", cases={"quick": 3 * 47, "thorough": 24 * 47}, timeout={"quick": 900, "thorough": 3400})],
+    stages=[dict(variant="asan", cases={"quick": 3 * 47, "thorough": 48 * 47}, timeout={"quick": 900, "thorough": 3400})],
     floors={"quick": {"attr_get_calls": 50000, "get_capacity_too_small": 20000, "typed_get_wrong_type": 20000, "attr_set_rejected": 5000, "set_side_effect_checks": 5000,
                       "attr_set_accepted": 300, "hostile_name_calls": 5000, "sockets_examined": 150, "distinct_nontrivial": 400},
             "thorough": {"attr_get_calls": 400000, "attr_set_rejected": 40000, "hostile_name_calls": 40000, "distinct_nontrivial": 400}},
@@ -163,7 +163,7 @@ reg("C07",
     stages=[dict(variant="asan", cases={"quick": 4000, "thorough": 80000}, timeout={"quick": 900, "thorough": 3400}, leaks=False)],
     floors={"quick": {"inputs": 3500, "valid_then_malformed_inputs": 300, "malformed_header_reached": 300, "recv_header_splits": 3000, "eproto_reported": 800,
                       "terminal_probe_calls": 5000, "deliveries_checked": 50000, "tls_garbage_eproto": 400, "bystander_connections_checked": 500, "distinct_nontrivial": 600},
-            "thorough": {"inputs": 70000, "valid_then_malformed_inputs": 6000, "tls_garbage_eproto": 8000, "distinct_nontrivial": 1500}},
+            "thorough": {"inputs": 60000, "valid_then_malformed_inputs": 6000, "tls_garbage_eproto": 8000, "distinct_nontrivial": 1500}},
     rule="one evaluation = one generated input written to one connection; non-trivial (framed modes) = valid frames precede a malformed header, or a frame header was completed over >=2 reads; "
          "distinct = distinct (mode, transport, side, end action, generator, segmentation, read fragmentation, how the input ends) signatures",
     assumptions=["a TCP reset by the raw peer may discard data in flight: only the prefix rule is applied then",
@@ -175,9 +175,9 @@ reg("C05",
     level_text="Random sequences of every public call (connect_a, accept, send, receive, finish, await, fd, attribute get/set/get_all, remote/local addr, set_blocking(false), close) are made on non-blocking sockets of all transports held in each phase: resolving (stub resolver that never answers), TCP connecting (address whose SYNs are dropped), TLS handshaking (raw peer that accepts and stays silent), back-pressured, established, peer closed (seen and unseen), failed; plus connections driven from creation to readiness through a delayed resolver answer and a first candidate that does not answer; a third of the cases run with the control interface enabled and raw control clients that pipeline requests without ever reading the replies; every TLS case ends with a creation that fails on unreadable credentials followed by a fresh connection (a call that never returns is reported by the per-case watchdog after one retry). The shim flags the waiting primitive itself, whether or not the wait happened to be satisfied at once.",
     level_note="Waits issued through non-PLT internal calls of other libraries are invisible to the link-time shim. Documented blocking exceptions (xcm_set_blocking(true), synchronous resolution in xcm_server and of a named xcm.local_addr) are not exercised.",
     harness=STATES + ["c05.c"],
-    stages=[dict(variant="asan", cases={"quick": 59 * 18, "thorough": 59 * 200}, timeout={"quick": 900, "thorough": 3400})],
+    stages=[dict(variant="asan", cases={"quick": 59 * 18, "thorough": 59 * 1000}, timeout={"quick": 900, "thorough": 3400})],
     floors={"quick": {"api_calls_watched": 150000, "phases_reached": 800, "alarm_checks": 150000, "progress_cases_established": 60, "ctl_clients_not_reading": 500, "creations_after_failed_tls_creation": 300, "distinct_nontrivial": 600},
-            "thorough": {"api_calls_watched": 3000000, "phases_reached": 8000, "progress_cases_established": 600, "distinct_nontrivial": 600}},
+            "thorough": {"api_calls_watched": 3000000, "phases_reached": 8000, "progress_cases_established": 600, "distinct_nontrivial": 450}},
     rule="one evaluation = one (transport, phase) socket set on which a random sequence of public calls is made with the wait monitor armed, or one connection driven through resolving/connecting/handshaking by finish calls; "
          "distinct = distinct (transport, phase, API) triples in which a call was watched; all cases that reached their phase are non-trivial",
     assumptions=["only calls made through the PLT are seen (libc, c-ares entry points); OpenSSL and c-ares internals calling each other directly are not"])
@@ -192,7 +192,7 @@ reg("C06",
     stages=[dict(variant="asan", cases={"quick": 2400, "thorough": 60000}, timeout={"quick": 900, "thorough": 3400})],
     floors={"quick": {"faults_fired": 500, "cuts_made": 500, "cuts_during_establishment": 50, "cuts_after_establishment": 100, "orderly_closes_verified": 150, "connect_failures_observed": 100,
                       "terminal_probe_calls": 15000, "distinct_nontrivial": 150},
-            "thorough": {"faults_fired": 15000, "cuts_made": 15000, "cuts_during_establishment": 1500, "orderly_closes_verified": 4000, "distinct_nontrivial": 300}},
+            "thorough": {"faults_fired": 15000, "cuts_made": 15000, "cuts_during_establishment": 1500, "orderly_closes_verified": 4000, "distinct_nontrivial": 120}},
     rule="one evaluation = one fault / cut / orderly-close / failing-establishment scenario; distinct = distinct (kind, transport, fault call, errno, discovering call) or (cut, transport, FIN/RST, direction, phase, terminal kinds) tuples that actually fired; a case whose injection point was not reached is counted under faults_not_reached/cut_not_reached",
     assumptions=["EPIPE met while writing is the peer's close: the terminal state is then 'closed' (receive 0, send EPIPE)",
                  "for non-orderly death any of 0/ECONNRESET/EPIPE/EPROTO is accepted as the terminal value; stickiness and consistency are demanded"])
@@ -207,7 +207,7 @@ reg("C08",
     stages=[dict(variant="asan", cases={"quick": 3200, "thorough": 48000}, timeout={"quick": 900, "thorough": 3400}, leaks=True)],
     floors={"quick": {"injections_fired": 1100, "rlimit_runs": 400, "fork_runs": 250, "cleanup_children_checked": 200, "owner_wakeup_after_cleanup_ok": 150, "forks_with_control_clients_attached": 40, "burst_runs": 100, "end_state_checks": 3000, "api_failures": 1500,
                       "scenarios_with_traffic": 800, "distinct_nontrivial": 1500},
-            "thorough": {"injections_fired": 20000, "rlimit_runs": 5000, "fork_runs": 3000, "distinct_nontrivial": 6000}},
+            "thorough": {"injections_fired": 14000, "rlimit_runs": 5000, "fork_runs": 3000, "distinct_nontrivial": 3200}},
     rule="one evaluation = one scenario run with one fault (or one rlimit value, one burst, one fork step); distinct = distinct (transport, flavour, failing call, index, errno) sites whose injection fired, (transport, flavour, rlimit) and (transport, flavour, fork step) tuples",
     assumptions=["baselines are taken after one warm-up connection per transport (OpenSSL/glibc process-wide state)",
                  "reachable-at-exit library state is not a leak (LeakSanitizer semantics)"])
@@ -221,7 +221,7 @@ reg("C13",
     stages=[dict(variant="asan", cases={"quick": 1600, "thorough": 30000}, timeout={"quick": 900, "thorough": 3400})],
     floors={"quick": {"connect_scenarios": 1400, "multi_attempt_or_resolver_fault_cases": 600, "connections_established": 500, "connect_failures_verified": 200, "resolver_fault_cases_ok": 100,
                       "happy_eyeballs_ipv4_delay_checked": 20, "local_addr_verified": 80, "server_unresolvable_cases": 10, "directed_two_family_shapes": 80, "local_address_busy_cases": 15, "distinct_nontrivial": 150},
-            "thorough": {"connect_scenarios": 28000, "multi_attempt_or_resolver_fault_cases": 12000, "local_addr_verified": 1500, "server_unresolvable_cases": 200, "distinct_nontrivial": 300}},
+            "thorough": {"connect_scenarios": 25000, "multi_attempt_or_resolver_fault_cases": 10000, "local_addr_verified": 1500, "server_unresolvable_cases": 200, "distinct_nontrivial": 300}},
     rule="one evaluation = one (list, assignment, resolver behaviour, algorithm, transport, local address, timeouts, first observer) scenario; non-trivial = at least two connect attempts or a resolver fault; distinct = distinct (transport, algorithm, list length class, attempts, outcome, observer, local-addr, family mix) signatures",
     assumptions=["with xcm.local_addr (an IPv4 address) the generated lists are IPv4-only",
                  "for happy eyeballs the failure errno of either track's last attempt is accepted (documentation does not order the tracks)"])
@@ -232,7 +232,7 @@ reg("C11",
     level_text="TCP keepalive/user-timeout attributes (single and in combinations, boundary values) are set at each point of a connection's life on tcp, tls, utls, btcp and btls - including while the resolver is silent and while the first candidate does not answer so that the value must be parked and applied to the socket that finally connects - and are then read back through xcm_attr_get and from the kernel with getsockopt on the descriptor the shim saw XCM create (defaults included). Accepted sockets are compared with their server socket for xcm.service, xcm.blocking and the TLS policy attributes with and without overrides in the accept map; xcm.blocking/xcm_set_blocking/xcm_is_blocking are cross-checked, xcm_fd/xcm_await must refuse with EINVAL in blocking mode; xcm.service values are tried against every transport on server and connect side; twenty creation-only attributes are set after creation on sockets held in six phases and must be refused with EACCES with the full attribute snapshot unchanged; xcm.local_addr is compared with getsockname and with the peer's view.",
     level_note="Kernel clamps are avoided by using values the kernel accepts; what the kernel does with the options afterwards (probe timing) is not observed.",
     harness=STATES + ["c11.c"],
-    stages=[dict(variant="asan", cases={"quick": 1600, "thorough": 32000}, timeout={"quick": 900, "thorough": 3400})],
+    stages=[dict(variant="asan", cases={"quick": 1600, "thorough": 96000}, timeout={"quick": 900, "thorough": 3400})],
     floors={"quick": {"tcp_option_verifications": 600, "kernel_option_reads": 3000, "parked_sets_whose_connection_established": 150, "sets_while_resolving": 80, "sets_while_connecting": 80,
                       "inheritance_checks": 200, "tls_policy_inheritance_checks": 60, "blocking_switch_checks": 1000, "service_checks": 500, "create_only_sets": 1500, "local_addr_checks": 60, "distinct_nontrivial": 150},
             "thorough": {"tcp_option_verifications": 12000, "parked_sets_whose_connection_established": 3000, "create_only_sets": 30000, "distinct_nontrivial": 300}},
@@ -248,7 +248,7 @@ reg("C09",
     harness=STATES + ["c09.c"],
     stages=[dict(variant="asan", cases={"quick": 3000, "thorough": 80000}, timeout={"quick": 900, "thorough": 3400})],
     floors={"quick": {"cells": 2500, "cells_client_must_reject": 500, "cells_server_must_reject": 500, "rejections_verified": 1000, "admitted_connections_verified": 500, "invalid_combinations_tried": 80, "distinct_nontrivial": 800},
-            "thorough": {"cells": 70000, "rejections_verified": 30000, "admitted_connections_verified": 15000, "distinct_nontrivial": 5000}},
+            "thorough": {"cells": 60000, "rejections_verified": 30000, "admitted_connections_verified": 15000, "distinct_nontrivial": 5000}},
     rule="one evaluation = one cell (one handshake, or one inconsistent creation); non-trivial = at least one side must reject; distinct = distinct (transport, both policies, both credential kinds, where the server policy was set, role reversal, expected verdicts) cells",
     assumptions=["the peer's chain is what its tls.cert item carries plus the verifier's bundle; with check_crl a CRL of every issuer is supplied",
                  "TLS 1.3: a client may legitimately complete before the server has judged its certificate: verdicts are per side"])
@@ -262,7 +262,7 @@ reg("C18",
     stages=[dict(variant="asan", cases={"quick": 480, "thorough": 12000}, timeout={"quick": 900, "thorough": 3400})],
     floors={"quick": {"identities_verified": 800, "designated_rejections_verified": 150, "established_connections_rechecked": 100, "updates_rewrite_in_place": 150, "updates_rename_over": 150, "updates_symlink_flip": 150,
                       "updates_env_switch": 100, "accept_overrides": 300, "twin_pairs_tried": 80, "release_probes_verified": 30, "malformed_material_cases": 300, "distinct_nontrivial": 8},
-            "thorough": {"identities_verified": 40000, "twin_pairs_tried": 2000, "release_probes_verified": 800, "distinct_nontrivial": 8}},
+            "thorough": {"identities_verified": 40000, "twin_pairs_tried": 1800, "release_probes_verified": 800, "distinct_nontrivial": 8}},
     rule="one evaluation = one history of 28 (thorough 60) steps, one twin pair, one release experiment or one malformed-material sweep; distinct = distinct (family, transport, twin kind)",
     assumptions=["an in-place rewrite differs from the previous content in mtime (the harness waits for a new clock tick)"])
 
@@ -298,7 +298,7 @@ reg("C20",
     level_text="The relay binary built from the working tree runs as a child process between 1-8 harness clients and a harness server on every pair of legs of equal service (ux, uxf, tcp, tls, utls; btcp, btls). Both ends of every relayed connection send unique-content messages (1 byte to 65535 bytes) at the same time, in mixed, burst-then-close and stalled-reader patterns; then one side finishes and closes and the other must receive everything that side had accepted, then the orderly close; deliveries in both directions are checked against the senders' ledgers (order, exactly once, bytes). The relay must still run afterwards and relay a fresh connection. In half of the cases the relay runs with an LD_PRELOAD shim that accepts TCP writes in part and refuses the next one, as a full kernel buffer does in the middle of a frame. Sanitizer reports of the relay process are collected from its stderr.",
     level_note="Timing of the two sides is what the scheduler and the kernel produce; the relay's internal event order is not controlled.",
     harness=STATES + ["c20.c"], preload=["vpreload.c"],
-    stages=[dict(variant="asan", cases={"quick": 480, "thorough": 12000}, timeout={"quick": 900, "thorough": 3400})],
+    stages=[dict(variant="asan", cases={"quick": 480, "thorough": 36000}, timeout={"quick": 900, "thorough": 3400})],
     floors={"quick": {"relayed_connections": 600, "close_order_verified": 400, "messages_relayed": 15000, "stalled_reader_cases": 80, "relay_served_again": 300, "distinct_nontrivial": 150},
             "thorough": {"relayed_connections": 15000, "close_order_verified": 10000, "distinct_nontrivial": 400}},
     rule="one evaluation = one relay process with 1-8 relayed connections; distinct = distinct (leg pair, single/multiple connections, pattern, shortened writes, closing side) signatures",
